@@ -27,6 +27,8 @@ def ContInv (h : Heap) (th : Thread) (item : Nat) : Cont → Prop
   | .insUnlink x _ => x < h.length ∧ keyOf h x = .fin item
   /- the re-search of Iterator.Next looks for the item of the node under the cursor -/
   | .iterNext it => keyOf h (th.iter it).curr = .fin item
+  /- so does the Seek of Refresh -/
+  | .iterRefresh it => keyOf h (th.iter it).curr = .fin item
   | _ => True
 
 /-- findPath: `prev`, `curr` are published and `key prev < item` -/
@@ -55,6 +57,7 @@ def PCInv (h : Heap) (th : Thread) : PC → Prop
   | .iterNext it => ∃ k, keyOf h (th.iter it).curr = .fin k
   | .iterHelp it next =>
     word? h (th.iter it).curr 0 = some (next, true) ∧ ∃ k, keyOf h (th.iter it).curr = .fin k
+  | .iterRefresh it => ∃ k, keyOf h (th.iter it).curr = .fin k
 
 def TInv (h : Heap) (th : Thread) : Prop :=
   BufOK h th.preds th.succs ∧ ItersOK h th.iters ∧ PCInv h th th.pc
@@ -129,6 +132,14 @@ theorem iter_eq_of_iters {th' : Thread} {l : List (Nat × Iter)} {it : Nat} {v :
     (h : th'.iters = SkipConc.setIter l it v) : th'.iter it = v := by
   simp [Thread.iter, Thread.iter?, h, find?_setIter]
 
+theorem moveIter_iter (th : Thread) (it p c : Nat) :
+    (th.moveIter it p c).iter it = { (th.iter it) with prev := p, curr := c, valid := true } :=
+  iter_eq_of_iters (l := th.iters) rfl
+
+theorem ItersOK.moveIter {h : Heap} {th : Thread} (b : ItersOK h th.iters) (it : Nat) {p c : Nat}
+    (hp : p < h.length) (hc : c < h.length) : ItersOK h (th.moveIter it p c).iters :=
+  b.setIter _ _ ⟨hp, hc⟩
+
 /-! ### stability under heap evolution -/
 
 theorem BufOK.ext {h h' : Heap} {p s : List Nat} (e : Ext h h') (b : BufOK h p s) : BufOK h' p s :=
@@ -149,6 +160,7 @@ theorem ContInv.ext {h h' : Heap} {th : Thread} {item : Nat} {c : Cont} (e : Ext
   · exact ⟨Nat.lt_of_lt_of_le b.1 e.len, by rw [e.key _ b.1]; exact b.2.1, b.2.2.1, b.2.2.2.1, b.2.2.2.2.1,
       by rw [e.height _ b.1]; exact b.2.2.2.2.2⟩
   · exact ⟨Nat.lt_of_lt_of_le b.1 e.len, by rw [e.key _ b.1]; exact b.2⟩
+  · rw [e.key _ (lt_of_keyOf_fin b)]; exact b
   · rw [e.key _ (lt_of_keyOf_fin b)]; exact b
 
 theorem FPInv.ext {h h' : Heap} {th : Thread} {fp : FP} (e : Ext h h') (b : FPInv h th fp) : FPInv h' th fp :=
@@ -189,6 +201,8 @@ theorem TInv.ext {h h' : Heap} {th : Thread} (e : Ext h h') (b : TInv h th) : TI
     exact ⟨k, by rw [e.key _ (lt_of_keyOf_fin hk)]; exact hk⟩
   · obtain ⟨hw, k, hk⟩ := hp
     exact ⟨e.marked _ _ _ hw, k, by rw [e.key _ (lt_of_keyOf_fin hk)]; exact hk⟩
+  · obtain ⟨k, hk⟩ := hp
+    exact ⟨k, by rw [e.key _ (lt_of_keyOf_fin hk)]; exact hk⟩
 
 /-! ### what a good segment result is -/
 
@@ -264,6 +278,31 @@ theorem enterSoft_good {h0 : Heap} {sh : Shared} {th : Thread} (item n i : Nat) 
     · exact ⟨H, e, hb, hi, trivial⟩
     · exact ⟨H, e, hb, hi, trivial⟩
 
+theorem afterNext_sh (sh : Shared) (th : Thread) (it : Nat) : (afterNext sh th it).1 = sh := by
+  unfold afterNext
+  simp only []
+  split
+  · split <;> rfl
+  · rfl
+
+/-- the end of Iterator.Next (count, and the start of Refresh up to ITER_REFRESH) -/
+theorem afterNext_good {h0 : Heap} {sh : Shared} {th : Thread} (it : Nat)
+    (H : HInv sh.heap) (e : Ext h0 sh.heap) (hb : BufOK sh.heap th.preds th.succs)
+    (hi : ItersOK sh.heap th.iters) : Good h0 (afterNext sh th it) := by
+  have hI := hi.iter H.len it
+  unfold afterNext
+  simp only []
+  split
+  · split
+    · rename_i k hk
+      refine ⟨H, e, hb, hi.setIter _ _ hI, k, ?_⟩
+      have h1 : ∀ t' : Thread, t'.iters = SkipConc.setIter th.iters it
+          { (th.iter it) with count := (th.iter it).count + 1 } → keyOf sh.heap (t'.iter it).curr = .fin k := by
+        intro t' ht'; rw [iter_eq_of_iters ht']; exact hk
+      exact h1 _ rfl
+    · exact ⟨H, e, hb, hi.setIter _ _ hI, trivial⟩
+  · exact ⟨H, e, hb, hi.setIter _ _ hI, trivial⟩
+
 theorem finishFind_good {h0 : Heap} {sh : Shared} {th : Thread} (item : Nat) (found : Bool) (cont : Cont)
     (H : HInv sh.heap) (e : Ext h0 sh.heap) (hb : BufOK sh.heap th.preds th.succs)
     (hi : ItersOK sh.heap th.iters) (hc : ContInv sh.heap th item cont)
@@ -295,17 +334,21 @@ theorem finishFind_good {h0 : Heap} {sh : Shared} {th : Thread} (item : Nat) (fo
     · exact ⟨H, e, hb, hi, trivial⟩
   · exact ⟨H, e, hb, hi, trivial⟩
   · exact ⟨H, e, hb, hi, trivial⟩
-  · split
+  · rename_i it
+    split
     · rename_i hf
-      refine ⟨H, e, hb, hi.setIter _ _ ⟨hp0, hs0⟩, item, ?_⟩
+      refine ⟨H, e, hb, hi.moveIter it hp0 hs0, item, ?_⟩
       have hfound : found = true := by
         cases found
         · simp at hf
         · rfl
-      rw [iter_eq_of_iters (l := th.iters) (it := _) (v := { prev := th.pred 0, curr := th.succ 0, valid := true }) rfl]
+      have : ({ th.moveIter it (th.pred 0) (th.succ 0) with pc := PC.iterNext it } : Thread).iter it =
+          (th.moveIter it (th.pred 0) (th.succ 0)).iter it := rfl
+      rw [this, moveIter_iter]
       exact hfk hfound
-    · exact ⟨H, e, hb, hi.setIter _ _ ⟨hp0, hs0⟩, trivial⟩
-  · exact ⟨H, e, hb, hi.setIter _ _ ⟨hp0, hs0⟩, trivial⟩
+    · exact afterNext_good (th := th.moveIter it (th.pred 0) (th.succ 0)) it H e hb (hi.moveIter it hp0 hs0)
+  · exact ⟨H, e, hb, hi.moveIter _ hp0 hs0, trivial⟩
+  · exact ⟨H, e, hb, hi.moveIter _ hp0 hs0, trivial⟩
 
 theorem getD_set_self {l : List Nat} {i v : Nat} (hi : i < l.length) : (l.set i v).getD i 0 = v := by
   simp [List.getD, hi]
@@ -652,7 +695,7 @@ theorem stepIterNext_good {sh : Shared} {th : Thread} (it : Nat) (H : HInv sh.he
   split
   · rename_i hm
     exact ⟨H, Ext.refl _, hb, hi, word?_of_getNext_marked hm, hp⟩
-  · exact ⟨H, Ext.refl _, hb, hi.setIter _ _ ⟨hI.2, H.getNext_lt _ _⟩, trivial⟩
+  · exact afterNext_good (th := th.moveIter it _ _) it H (Ext.refl _) hb (hi.moveIter it hI.2 (H.getNext_lt _ _))
 
 theorem stepIterHelp_good {sh : Shared} {th : Thread} (it next : Nat) (H : HInv sh.heap)
     (hlv : sh.level ≤ Gen.maxLevel)
@@ -673,12 +716,12 @@ theorem stepIterHelp_good {sh : Shared} {th : Thread} (it next : Nat) (H : HInv 
   unfold stepIterHelp
   simp only []
   split
-  · refine ⟨?_, ?_, ?_, ?_, trivial⟩
+  · refine afterNext_good (th := th.moveIter it _ _) it ?_ ?_ ?_ ?_
     · simpa [helpStats_heap] using H'
     · simpa [helpStats_heap] using e
-    · simpa [helpStats_heap, Thread.setIter] using hb
+    · simpa [helpStats_heap, Thread.moveIter, Thread.setIter] using hb
     · simp only [helpStats_heap]
-      exact hi.setIter _ _ ⟨hI.1, hn⟩
+      exact hi.moveIter it hI.1 hn
   · refine startFind_good _ _ ?_ ?_ ?_ ?_ ?_ ?_
     rotate_right
     · simp only [ContInv, bumpReadConflicts, helpStats_heap]
@@ -688,6 +731,17 @@ theorem stepIterHelp_good {sh : Shared} {th : Thread} (it next : Nat) (H : HInv 
     · simpa [bumpReadConflicts, helpStats_heap] using e
     · simpa [bumpReadConflicts, helpStats_heap] using hb
     · simpa [bumpReadConflicts, helpStats_heap] using hi
+
+theorem stepIterRefresh_good {sh : Shared} {th : Thread} (it : Nat) (H : HInv sh.heap)
+    (hlv : sh.level ≤ Gen.maxLevel)
+    (hT : TInv sh.heap th) (hpc : th.pc = .iterRefresh it) : Good sh.heap (stepIterRefresh sh th it) := by
+  obtain ⟨hb, hi, hp⟩ := hT
+  rw [hpc] at hp
+  obtain ⟨k, hk⟩ := hp
+  unfold stepIterRefresh
+  refine startFind_good _ _ H hlv (Ext.refl _) hb hi ?_
+  simp only [ContInv]
+  rw [hk]; rfl
 
 /-- MAIN: every segment of every thread keeps the heap invariant, evolves the heap legally (H3: a marked word
     never changes; marks are permanent; keys and heights are immutable) and re-establishes its own locals. -/
@@ -707,6 +761,7 @@ theorem stepThread_good {sh : Shared} {th : Thread} (H : HInv sh.heap) (hlv : sh
   · exact startFind_good _ _ H hlv (Ext.refl _) hT.1 hT.2.1 trivial
   · rename_i hpc; exact stepIterNext_good _ H hT hpc
   · rename_i hpc; exact stepIterHelp_good _ _ H hlv hT hpc
+  · rename_i hpc; exact stepIterRefresh_good _ H hlv hT hpc
 
 /-! ### the list level stays within MaxLevel -/
 
@@ -729,7 +784,9 @@ theorem finishFind_level (sh : Shared) (th : Thread) (item : Nat) (found : Bool)
   · split
     · rw [enterSoft_level]
     · rfl
-  · split <;> rfl
+  · split
+    · rfl
+    · rw [afterNext_sh]
 
 theorem afterRead_level (sh : Shared) (th : Thread) (fp : FP) (next : Nat) (d : Bool) :
     (afterRead sh th fp next d).1.level = sh.level := by
@@ -795,11 +852,14 @@ theorem stepThread_level {sh : Shared} {th : Thread} (hlv : sh.level ≤ Gen.max
     split <;> exact ⟨hlv, Nat.le_refl _⟩
   · exact ⟨hlv, Nat.le_refl _⟩
   · unfold stepIterNext; simp only []
-    split <;> exact ⟨hlv, Nat.le_refl _⟩
+    split
+    · exact ⟨hlv, Nat.le_refl _⟩
+    · rw [afterNext_sh]; exact ⟨hlv, Nat.le_refl _⟩
   · unfold stepIterHelp; simp only []
     split
-    · simp only [helpStats_level]; exact ⟨hlv, Nat.le_refl _⟩
+    · rw [afterNext_sh]; simp only [helpStats_level]; exact ⟨hlv, Nat.le_refl _⟩
     · simp only [startFind_level, bumpReadConflicts, helpStats_level]; exact ⟨hlv, Nat.le_refl _⟩
+  · exact ⟨hlv, Nat.le_refl _⟩
 
 /-- a call entry does not write the heap -/
 theorem startOp_heap (sh : Shared) (th : Thread) (op : Op) : (startOp sh th op).1.heap = sh.heap := by
@@ -812,6 +872,9 @@ theorem startOp_heap (sh : Shared) (th : Thread) (op : Op) : (startOp sh th op).
     · split <;> rfl
     · rfl
   · split <;> rfl
+  · split
+    · split <;> rfl
+    · rfl
 
 theorem startOp_level (sh : Shared) (th : Thread) (op : Op) : (startOp sh th op).1.level = sh.level := by
   cases op <;> simp only [startOp]
@@ -823,6 +886,9 @@ theorem startOp_level (sh : Shared) (th : Thread) (op : Op) : (startOp sh th op)
     · split <;> rfl
     · rfl
   · split <;> rfl
+  · split
+    · split <;> rfl
+    · rfl
 
 /-- a call entry leaves the thread with good locals -/
 theorem startOp_good {sh : Shared} {th : Thread} (op : Op) (H : HInv sh.heap) (hlv : sh.level ≤ Gen.maxLevel)
@@ -837,8 +903,8 @@ theorem startOp_good {sh : Shared} {th : Thread} (op : Op) (H : HInv sh.heap) (h
   · exact startFind_good _ _ H hlv (Ext.refl _) hb hi trivial
   · exact startFind_good _ _ H hlv (Ext.refl _) hb hi trivial
   · refine ⟨H, Ext.refl _, hb, ?_, ?_⟩
-    · exact hi.setIter _ _ ⟨by have := H.len; simp [headId]; omega, H.getNext_lt _ _⟩
-    · simp only [Thread.setIter, hidle, PCInv]
+    · exact hi.moveIter _ (by have := H.len; simp [headId]; omega) (H.getNext_lt _ _)
+    · simp only [Thread.moveIter, Thread.setIter, hidle, PCInv]
   · exact startFind_good _ _ H hlv (Ext.refl _) hb hi trivial
   · split
     · rename_i it x I hI
@@ -855,6 +921,23 @@ theorem startOp_good {sh : Shared} {th : Thread} (op : Op) (H : HInv sh.heap) (h
     · refine ⟨H, Ext.refl _, hb, ?_, by simp only [hidle, PCInv]⟩
       intro p hp
       exact hi p (List.mem_filter.mp hp).1
+    · exact ⟨H, Ext.refl _, hb, hi, by rw [hidle]; trivial⟩
+  · split
+    · rename_i it n x I hI
+      split
+      · refine ⟨H, Ext.refl _, hb, ?_, by simp only [Thread.setIter, hidle, PCInv]⟩
+        have hm : (it, I) ∈ th.iters := by
+          unfold Thread.iter? at hI
+          cases hf : th.iters.find? (fun p => p.1 == it) with
+          | none => simp [hf] at hI
+          | some p =>
+            simp [hf] at hI
+            have h1 := List.mem_of_find?_eq_some hf
+            have h2 := List.find?_some hf
+            simp at h2
+            rw [← hI, ← h2]; exact h1
+        exact hi.setIter _ _ (hi _ hm)
+      · exact ⟨H, Ext.refl _, hb, hi, by rw [hidle]; trivial⟩
     · exact ⟨H, Ext.refl _, hb, hi, by rw [hidle]; trivial⟩
 
 end NitroVerif.SkipConc
